@@ -460,3 +460,78 @@ def position_pair_ok(b, off, ln):
     if ll[0] == 'field' and ll[1][0] == 'field':
         return True, 'the length field of the entry at that offset'
     return False, 'the length is neither an entry\'s own length field, nor the whole document, nor the caller\'s position'
+
+
+# ------------------------------------------------------------------ R06.9 strip_nulls visits every nested container
+
+def r06_9(ctx, run, rule='R06.9', which=('bytes', 'tree')):
+    """Null-valued object members are removed at every depth: the byte walkers never copy a CONTAINER entry verbatim
+    (push_raw) — they rebuild it through the recursive stripper — and the tree walker recurses into every element that
+    can be an array or an object."""
+    f = ctx.facts
+    g = lambda n: cv(f, n)
+    if 'bytes' in which:
+        roots = [p for p in ('functions::strip_nulls_jsonb',) if p in f.bodies]
+        if not roots:
+            run.undecided(rule, 'functions::strip_nulls_jsonb', 'walkers', 'function not found (anchor lost)')
+        else:
+            cone = sorted(x for x in ctx.cg.reachable(roots) if x in f.bodies and x.startswith('functions::strip_nulls'))
+            n = 0
+            for p in cone:
+                b = f.bodies[p]
+                paths, loops = region_paths(b)
+                bad = None
+                for q in paths:
+                    tc = [c for c in q.conds if c[0][0] == 'field' and c[1] == 'eq' and c[2] == g('CONTAINER_TAG')] + \
+                         [c for c in q.conds if 'type_code' in show(c[0]) and c[1] == 'eq' and c[2] == g('CONTAINER_TAG')]
+                    if not tc:
+                        continue
+                    n += 1
+                    raw = [e for e in q.calls() if called(e[1], 'ArrayBuilder::push_raw', 'ObjectBuilder::push_raw')]
+                    if raw:
+                        t = raw[0][5]
+                        bad = f"{t.get('file')}:{t.get('line')}"
+                loc = f'{b.file}:{b.line}'
+                if bad:
+                    run.violation(rule, p, 'nested-containers', f'an entry of container kind is copied verbatim (push_raw at {bad}) instead of being rebuilt by the recursive stripper: '
+                                  'null members below it survive', loc)
+                elif paths:
+                    run.proved(rule, p, 'nested-containers', 'no path copies a CONTAINER entry verbatim', loc, nontrivial=bool(n))
+    if 'tree' in which:
+        b = f.bodies.get('functions::strip_value_nulls')
+        if b is None:
+            run.undecided(rule, 'functions::strip_value_nulls', 'tree-walker', 'function not found (anchor lost)')
+            return
+        vs = [v['name'] for v in f.adts.get('value::Value', {}).get('variants', [])]
+        cont = {vs.index(x) for x in ('Array', 'Object') if x in vs}
+        paths, loops = region_paths(b)
+        bad = 0
+        n = 0
+        for q in paths:
+            if not q.blocks or q.blocks[0] not in loops or q.end[0] not in ('stop', 'backedge') or q.end[1] != q.blocks[0]:
+                continue
+            nxt = [c for c in q.conds if c[0][0] == 'discr' and c[0][1][0] == 'call' and canon(c[0][1][1]).endswith('Iterator::next') and c[1] == 'eq' and c[2] == 1]
+            if not nxt:
+                continue
+            n += 1
+            if any(called(e[1], 'functions::strip_value_nulls') for e in q.calls()):
+                continue
+            # no recursion on this iteration: the element must be known not to be a container
+            possible = set(range(len(vs)))
+            for c in q.conds:
+                t = c[0]
+                if t[0] == 'discr' and any(is_call(s_, 'Iterator::next') for s_ in subterms(t[1])) and not (t[1][0] == 'call'):
+                    if c[1] == 'eq':
+                        possible &= {c[2]}
+                    elif c[1] == 'ne':
+                        possible -= set(c[2])
+            if possible & cont:
+                bad += 1
+        loc = f'{b.file}:{b.line}'
+        if bad:
+            run.violation(rule, b.path, 'tree-walker', f'{bad} iteration path(s) skip the recursive call for an element that may be an array or an object: null members below it survive '
+                          'in the text route but not in the JSONB route', loc)
+        elif n:
+            run.proved(rule, b.path, 'tree-walker', f'{n} iteration path(s): every element that can be a container is visited recursively', loc)
+        else:
+            run.undecided(rule, b.path, 'tree-walker', 'no element loop found in the tree walker: its traversal is not in a shape this rule reads', loc)
